@@ -451,6 +451,7 @@ ds_harness!(c01_fd_res_sp_oconst, GenericFastDataset<VTI>, 2, PNot(any_t()), PTw
 ds_harness!(c01_ld_res_two_o_gconst, GenericLightDataset<VTI>, 2, PAny, PAny, PTwo(any_t(), any_t()), GConst(any_g()));
 ds_harness!(c01_ld_res_not_p_sgconst, GenericLightDataset<VTI>, 2, PConst(any_t()), PNot(any_t()), PAny, GConst(any_g()));
 ds_harness!(c01_ld_res_gnot, GenericLightDataset<VTI>, 2, PAny, PAny, PAny, GNot(any_g()));
+ds_harness!(c01_ld_res_gkind, GenericLightDataset<VTI>, 2, PAny, PAny, PAny, GKind(kani::any()));
 ds_harness!(c01_ld_res_kind_s, GenericLightDataset<VTI>, 2, PKind(kani::any()), PAny, PAny, PAny);
 
 #[cfg(kani)]
@@ -533,6 +534,8 @@ shapes8!(GenericLightGraph<VTI>, 3;
     c01_lg_100: 1 0 0, c01_lg_101: 1 0 1, c01_lg_110: 1 1 0, c01_lg_111: 1 1 1,
 );
 gr_harness!(c01_fg_res_two_p, GenericFastGraph<VTI>, 3, PAny, PTwo(any_t(), any_t()), PAny);
+gr_harness!(c01_fg_res_two_p_sconst, GenericFastGraph<VTI>, 3, POpt(any_t()), PTwo(any_t(), any_t()), PAny);
+gr_harness!(c01_lg_res_two_p_sconst, GenericLightGraph<VTI>, 3, POpt(any_t()), PTwo(any_t(), any_t()), PAny);
 gr_harness!(c01_fg_res_not_o_sconst, GenericFastGraph<VTI>, 3, PConst(any_t()), PAny, PNot(any_t()));
 gr_harness!(c01_fg_res_kind_s_oconst, GenericFastGraph<VTI>, 3, PKind(kani::any()), PAny, POpt(any_t()));
 gr_harness!(c01_lg_res_not_s, GenericLightGraph<VTI>, 3, PNot(any_t()), PAny, PAny);
